@@ -46,6 +46,7 @@ var scGuards = guardTable{
 func runC08(r *engine.Run) {
 	r.Rule("LOCK-statecache", "guarded-by discipline over every function reachable from the exported methods of StateCache/BlockCache/TransactionCache/QueryBlockCache: plain maps and rewritable fields are accessed only with their owner's mutex held in the required mode (interprocedural must-lockset), counters updated through sync/atomic are never accessed plainly, constructor-only fields are never written afterwards; constructor contexts (object allocated in the same function) are exempt")
 	r.Rule("LOCK-commit", "every write into the key->versions map, a per-key versions map or the block-link map that is reachable from StateCache.commit happens with StateCache.lock held")
+	r.Rule("DOM-recheck", "the lock-free ancestor walk of StateCache.Get never overwrites an entry of the queried block: it memoises with an add-if-absent operation (no plain Add on the per-key map), and a lookup of the queried block's own entry that can only execute after the link lookup dominates the memoisation (a commit publishes a block's link after its keys, so an entry written meanwhile is seen by that re-check)")
 	r.Rule("ORDER-publish", "in StateCache.commit the block's ancestor link is published (commitRound) only after the loop that writes the block's keys: no per-key write is reachable after the publication, and the publication is not inside the loop")
 	r.NotDec = append(r.NotDec, "that every interleaving of the lock-free StateCache.Get with a commit yields the block-tree-determined value (needs exploration of interleavings)")
 	const rule = "LOCK-statecache"
@@ -85,6 +86,7 @@ func runC08(r *engine.Run) {
 		}
 		orderPublish(r, commit)
 	}
+	domRecheck(r, "DOM-recheck")
 }
 
 func orderPublish(r *engine.Run, commit *ssa.Function) {
@@ -133,5 +135,60 @@ func orderPublish(r *engine.Run, commit *ssa.Function) {
 		r.Check(good, rule, fn(commit)+"|link-after-keys", r.P.Pos(p.Pos()),
 			fmt.Sprintf("link published after all %d per-key write sites; none reachable afterwards", len(writes)),
 			"the ancestor link is published before the block's keys are all written (a concurrent reader walks past a half-written block to an older value): "+detail)
+	}
+}
+
+func domRecheck(r *engine.Run, rule string) {
+	f := r.Fn(rule, pkgSC, "StateCache", "Get")
+	if f == nil {
+		return
+	}
+	hashParam := ssa.Value(f.Params[2])
+	var links, memos, rechecks []*ssa.Call
+	badAdd := ""
+	engine.Instrs(f, func(in ssa.Instruction) {
+		c, ok := in.(*ssa.Call)
+		if !ok {
+			return
+		}
+		switch {
+		case lruCallOnField(c, "Get", "hashCache"), lruCallOnField(c, "Peek", "hashCache"):
+			links = append(links, c)
+		case lruCallOnField(c, "Get", "cache"), lruCallOnField(c, "Add", "cache"), lruCallOnField(c, "Get", "hashCache"):
+		case extCalleeIs(c, "hashicorp/golang-lru", "Cache", "Add"):
+			badAdd = r.P.Pos(c.Pos())
+			memos = append(memos, c)
+		case extCalleeIs(c, "hashicorp/golang-lru", "Cache", "ContainsOrAdd"), extCalleeIs(c, "hashicorp/golang-lru", "Cache", "PeekOrAdd"):
+			memos = append(memos, c)
+		case extCalleeIs(c, "hashicorp/golang-lru", "Cache", "Get"), extCalleeIs(c, "hashicorp/golang-lru", "Cache", "Peek"), extCalleeIs(c, "hashicorp/golang-lru", "Cache", "Contains"):
+			if through(c.Call.Args[1]) == hashParam {
+				rechecks = append(rechecks, c)
+			}
+		}
+	})
+	if len(links) == 0 {
+		r.Anchor(rule, fmt.Errorf("unresolved anchor: link lookups in %s", fn(f)))
+		return
+	}
+	r.Check(badAdd == "", rule, fn(f)+"|memo add-if-absent", r.P.Pos(f.Pos()), fmt.Sprintf("%d memoisation site(s), all add-if-absent", len(memos)),
+		"the walk memoises with a plain Add at "+badAdd+": a lookup that raced with the queried block's commit overwrites the block's committed entry with an ancestor's value, and every later lookup at that block returns the ancestor's value")
+	for i, m := range memos {
+		good := false
+		for _, rc := range rechecks {
+			after := false
+			for _, l := range links {
+				if engine.ReachableAfter(l, rc) && !engine.ReachableAfter(rc, l) {
+					after = true
+				}
+			}
+			if after && engine.InstrDominates(rc, m) {
+				good = true
+			}
+		}
+		r.Check(good, rule, fmt.Sprintf("%s|re-check before memo#%d", fn(f), i+1), r.P.Pos(m.Pos()), "the queried block's own entry is looked up again after the walk and before the memo",
+			"the value found on the ancestor chain is memoised/returned without looking the queried block's own entry up again after the link lookup: a commit that completed during the walk is ignored")
+	}
+	if len(memos) == 0 {
+		r.Note(rule, fn(f)+"|no memo", r.P.Pos(f.Pos()), "the walk does not memoise")
 	}
 }
